@@ -86,6 +86,7 @@ type c10Case struct {
 	Seq  []string
 	Reg  int // bitmask over {progress, message, custom}
 	Pad  int
+	PadS string // appended to every string the handler puts into a notification and to the result text
 	HErr int // bitmask over the notifications the client's handlers receive, in order: bit n set = the handler returns an error for the n-th
 }
 
@@ -118,24 +119,28 @@ func c10Cases(tier string) []c10Case {
 				regs = []int{0, 3, 4, 7}
 			}
 			for _, reg := range regs {
-				out = append(out, c10Case{mode, sq, reg, 0, 0})
+				out = append(out, c10Case{mode, sq, reg, 0, "", 0})
 			}
 			// handlers that return an error for the first, a middle, the last or every notification
 			if len(sq) >= 1 && len(sq) <= 3 {
 				for _, he := range []int{1, 2, 4, 7} {
 					if he < 1<<len(sq) || he == 7 {
-						out = append(out, c10Case{mode, sq, 7, 0, he})
+						out = append(out, c10Case{mode, sq, 7, 0, "", he})
 					}
 				}
 			}
 		}
 		for _, k := range c10Kinds {
-			out = append(out, c10Case{mode, []string{k}, 7, 65537, 0}, c10Case{mode, []string{k, k}, 7, 65537, 0})
+			out = append(out, c10Case{mode, []string{k}, 7, 65537, "", 0}, c10Case{mode, []string{k, k}, 7, 65537, "", 0})
+			// strings that are hostile to naive frame writers, in every string of the notification and in the result
+			for _, ps := range []string{" 50% done", " 100%", " %s %d %v %!", ` "q" \ \"`, " l1\nl2\r\nl3", " \u2028\u2029", " data: x\n\nid: 9"} {
+				out = append(out, c10Case{mode, []string{k, "progress"}, 7, 0, ps, 0})
+			}
 		}
 		// parameter / _meta values of other Go types that encode to the same JSON
 		for _, k := range []string{"generic", "meta-only", "empty-params", "meta-typed", "meta-strmap", "meta-struct", "params-typed"} {
 			for _, reg := range []int{0, 4, 7} {
-				out = append(out, c10Case{mode, []string{k}, reg, 0, 0}, c10Case{mode, []string{"progress", k, "meta"}, reg, 0, 0}, c10Case{mode, []string{k, k, k}, reg, 0, 0})
+				out = append(out, c10Case{mode, []string{k}, reg, 0, "", 0}, c10Case{mode, []string{"progress", k, "meta"}, reg, 0, "", 0}, c10Case{mode, []string{k, k, k}, reg, 0, "", 0})
 			}
 		}
 	}
@@ -148,10 +153,10 @@ type c10Rec struct {
 	before bool // the call had not yet returned
 }
 
-func c10Run(cfg vsched.Config, mode string, calls [][]string, reg int, pad int, herr int) (viol []explore.Violation, obs *hx.Log, res *vsched.Result) {
+func c10Run(cfg vsched.Config, mode string, calls [][]string, reg int, pad int, herr int, padStr ...string) (viol []explore.Violation, obs *hx.Log, res *vsched.Result) {
 	obs = &hx.Log{}
 	k := func(s string) string { return s + ":" + mode }
-	padS := strings.Repeat("P", pad)
+	padS := strings.Repeat("P", pad) + strings.Join(padStr, "")
 	res = vsched.Run(cfg, func() {
 		vsched.SetBranching(false)
 		r := NewRig(mode)
@@ -166,7 +171,7 @@ func c10Run(cfg vsched.Config, mode string, calls [][]string, reg int, pad int, 
 				}
 				expected[ci] = append(expected[ci], [2]string{c10Method(kind), want})
 			}
-			return mcp.NewTextResult(fmt.Sprintf("done:%d", ci)), nil
+			return mcp.NewTextResult(fmt.Sprintf("done:%d", ci) + strings.Join(padStr, "")), nil
 		})
 		cl, err := r.Connect()
 		if err != nil {
@@ -218,7 +223,7 @@ func c10Run(cfg vsched.Config, mode string, calls [][]string, reg int, pad int, 
 		for ci := range calls {
 			if !returned[ci] {
 				viol = append(viol, V(k("call-hangs"), "call %d did not return; blocked %v", ci, vsched.LiveThreads()))
-			} else if errs[ci] != nil || results[ci] != fmt.Sprintf("done:%d", ci) {
+			} else if errs[ci] != nil || results[ci] != fmt.Sprintf("done:%d", ci)+strings.Join(padStr, "") {
 				viol = append(viol, V(k("result-affected"), "call %d: result %q err %v", ci, results[ci], errs[ci]))
 			}
 		}
@@ -273,8 +278,8 @@ func c10Run(cfg vsched.Config, mode string, calls [][]string, reg int, pad int, 
 
 func c10Eval(tier string, i int) CaseResult {
 	cs := c10Cases(tier)[i]
-	cr := CaseResult{Desc: fmt.Sprintf("mode=%s seq=%v registered=%03b pad=%d handler-errors=%03b", cs.Mode, cs.Seq, cs.Reg, cs.Pad, cs.HErr), Nontrivial: len(cs.Seq) > 0}
-	viol, obs, res := c10Run(vsched.Config{}, cs.Mode, [][]string{cs.Seq}, cs.Reg, cs.Pad, cs.HErr)
+	cr := CaseResult{Desc: fmt.Sprintf("mode=%s seq=%v registered=%03b pad=%d%q handler-errors=%03b", cs.Mode, cs.Seq, cs.Reg, cs.Pad, cs.PadS, cs.HErr), Nontrivial: len(cs.Seq) > 0}
+	viol, obs, res := c10Run(vsched.Config{}, cs.Mode, [][]string{cs.Seq}, cs.Reg, cs.Pad, cs.HErr, cs.PadS)
 	o := finishOutcome(res, obs, viol, true)
 	cr.ObsKey = cr.Desc + o.ObsKey
 	cr.Violations = o.Violations
